@@ -3,6 +3,8 @@ import Driver.Needs
 import Driver.Matrix
 import Driver.Expr
 import Driver.Sema
+import Driver.Lint
+import Driver.Render
 
 def dispatch (line : String) : String :=
   match (line.trimAscii.toString.splitOn " ").filter (· ≠ "") with
@@ -12,6 +14,12 @@ def dispatch (line : String) : String :=
   | "lex" :: args => Driver.Expr.handleLex args
   | "parse" :: args => Driver.Expr.handleParse args
   | "sema" :: args => Driver.SemaD.handle args
+  | "lintsort" :: args => Driver.LintD.handleSort args
+  | "relpath" :: args => Driver.LintD.handleRel args
+  | "matcher" :: args => Driver.RenderD.handleMatcher args
+  | "header" :: args => Driver.RenderD.handleHeader args
+  | "snippet" :: args => Driver.RenderD.handleSnippet args
+  | "sanitize" :: args => Driver.RenderD.handleSanitize args
   | _ => "bad-op"
 
 partial def loop (hin : IO.FS.Stream) (hout : IO.FS.Stream) : IO Unit := do
